@@ -186,6 +186,91 @@ def run_batch(ctx, n, length, with_model=True):
         run_history(ctx, h, m)
 
 
+def transient_failures(ctx):
+    """a text that is refused for a reason that has nothing to do with the text (the caller's stack was nearly exhausted; an
+    interpreter limit that is lifted afterwards) is an ordinary text the next time it is submitted"""
+    import sys
+    from pyab_experiment.experiment_evaluator import ExperimentEvaluator
+    a = 'def e { salt: "a" splitters: u return "A1" weighted 1, "A2" weighted 1 }'
+    chain = " ".join('else if x == %d { return "b%d" weighted 1 }' % (k, k) for k in range(1, 40))
+    b = 'def e { salt: "b" splitters: u if x == 0 { return "b0" weighted 1 } %s else { return "B" weighted 1, "B2" weighted 1 } }' % chain
+    units = [{"u": "u%d" % i, "x": -1} for i in range(12)]
+
+    def deep(n, f):
+        if n <= 0:
+            return f()
+        return deep(n - 1, f)
+
+    def depth_now():
+        d, fr = 0, sys._getframe()
+        while fr is not None:
+            d, fr = d + 1, fr.f_back
+        return d
+
+    for margin in (12, 25, 40, 60, 90):
+        ev, _ = common.quiet(lambda: ExperimentEvaluator(a))
+        want_a = [common.outcome_of(lambda e=e: ev(**e)) for e in units]
+        room = sys.getrecursionlimit() - depth_now() - margin
+        try:
+            common.quiet(lambda: deep(room, lambda: ev.recompile(b)))
+            first = "ok"
+        except RecursionError:
+            first = "RecursionError"
+        except Exception as ex:  # noqa
+            first = common.classify_exc(ex)
+        ctx.count("transient:deep-stack:" + first)
+        ctx.case(("transient", "deep-stack", margin), True)
+        if first == "ok":
+            continue
+        mid = [common.outcome_of(lambda e=e: ev(**e)) for e in units]
+        if mid != want_a:
+            ctx.violation(f"a recompile that raised {first} (caller's stack nearly exhausted) changed what the evaluator answers",
+                          {"history": [["new", 0, a], ["recompile-from-deep-stack", 0, b]], "margin": margin, "before": want_a[:3], "after": mid[:3]})
+            continue
+        try:
+            common.quiet(lambda: ev.recompile(b))
+            second = "ok"
+        except Exception as ex:  # noqa
+            second = common.classify_exc(ex)
+        fresh = [common.outcome_of(lambda e=e: ExperimentEvaluator(b)(**e)) for e in units]
+        after = [common.outcome_of(lambda e=e: ev(**e)) for e in units]
+        if second != "ok" or after != fresh:
+            ctx.violation(f"a valid text that was refused once with {first} (the caller's stack was nearly exhausted) is resubmitted from a shallow stack: "
+                          f"recompile gives {second}, the evaluator answers {json.dumps(after[0])[:60]}; a fresh evaluator of that text answers {json.dumps(fresh[0])[:60]}",
+                          {"history": [["new", 0, a], ["recompile-from-deep-stack", 0, b], ["recompile", 0, b], ["call", 0, common.enc_env(units[0])]],
+                           "first": first, "second": second, "impl": after[:3], "fresh": fresh[:3]})
+    # an interpreter limit lifted between two submissions of the same text
+    if hasattr(sys, "set_int_max_str_digits"):
+        big = 'def e { salt: "c" splitters: u if x < %s { return "C1" weighted 1, "C2" weighted 1 } else { return "z" weighted 1 } }' % ("9" * 5000)
+        ev, _ = common.quiet(lambda: ExperimentEvaluator(a))
+        try:
+            common.quiet(lambda: ev.recompile(big))
+            first = "ok"
+        except Exception as ex:  # noqa
+            first = common.classify_exc(ex)
+        old = sys.get_int_max_str_digits()
+        try:
+            sys.set_int_max_str_digits(0)
+            try:
+                common.quiet(lambda: ev.recompile(big))
+                second = "ok"
+            except Exception as ex:  # noqa
+                second = common.classify_exc(ex)
+            try:
+                common.quiet(lambda: ExperimentEvaluator(big))
+                fresh_ok = "ok"
+            except Exception as ex:  # noqa
+                fresh_ok = common.classify_exc(ex)
+            ctx.count("transient:int-limit:" + first + "->" + second)
+            ctx.case(("transient", "int-limit"), True)
+            if first != "ok" and fresh_ok == "ok" and second != "ok":
+                ctx.violation(f"a text refused with {first} while the interpreter's int-digit limit was in force is refused again ({second}) after the limit was lifted, "
+                              "although a fresh evaluator now accepts it", {"history": [["new", 0, a], ["recompile", 0, big[:80] + "…"], ["lift-limit"], ["recompile", 0, "same"]],
+                                                                            "first": first, "second": second})
+        finally:
+            sys.set_int_max_str_digits(old)
+
+
 def run(ctx):
     n = N[ctx.tier]
     if ctx.obligation_breaks:
@@ -197,6 +282,7 @@ def run(ctx):
     ctx.extra["table_obligations"] = 1
     ctx.assumptions.append("CollisionFree: texts in a history have pairwise distinct MD5 (hypothesis of C11_refinement_history)")
     run_batch(ctx, n, LEN[ctx.tier])
+    transient_failures(ctx)
 
 
 def search(ctx):
